@@ -268,7 +268,7 @@ func (cd *codec) check(t *engine.T, in []byte, desc string, force int) {
 			re = in[:cd.elem] // G1.MarshalCompressed(infinity) is documented as undefined: not compared
 		}
 		if !bytes.Equal(re, in[:cd.elem]) {
-			t.Fail(cd.name+"/reencode-mismatch", "%s [%s]: decoded %s but re-encoding gives %s", desc, cls, hx(in[:cd.elem]), hx(re))
+			t.Fail(cd.name+"/reencode-mismatch/"+cls, "%s [%s]: decoded %s but re-encoding gives %s", desc, cls, hx(in[:cd.elem]), hx(re))
 		}
 		if wantUnc != nil && !bytes.Equal(unc, wantUnc) {
 			t.Fail(cd.name+"/wrong-element", "%s [%s]: decoded element %s, want %s", desc, cls, hx(unc), hx(wantUnc))
